@@ -861,7 +861,7 @@ func termHas(t *Term, key string) bool {
 // path of every day's call, otherwise a day without that process keeps using
 // yesterday's value (phantom uptake or groundwater supply).
 func dayHandover(p *Prog, r *Report, rule string) {
-	r.Rule(rule, "daily hand-over from evapotranspiration to the water kernel: surface flux, actual evaporation, groundwater uptake, per-layer root uptake and per-layer evaporation are assigned on every path of the daily routine (scalars outside loops; arrays by a sweep over all layers whose arms cover every layer), so no value of an earlier day survives", 5)
+	r.Rule(rule, "daily hand-over from evapotranspiration to the water kernel: surface flux, actual evaporation, groundwater uptake, per-layer root uptake and per-layer evaporation are assigned on every path of the daily routine (scalars outside loops; arrays by a sweep over all layers whose arms cover every layer), so no value of an earlier day survives; the start-of-day water content of every layer is yesterday's end-of-day value on every day after the first", 9)
 	x := walked(p, "hermes.Evatra")
 	if x == nil {
 		r.Ob("Evatra", "-", false, "hermes.Evatra not found")
@@ -871,6 +871,46 @@ func dayHandover(p *Prog, r *Report, rule string) {
 		root  string
 		array bool
 	}{{"GlobalVarsMain.FLUSS0", false}, {"GlobalVarsMain.ETA", false}, {"WaterSharedVars.GWAUF", false}, {"GlobalVarsMain.TP", true}, {"WaterSharedVars.EV", true}}
+	// the state itself: on every day but the first the start-of-day water content of every layer is yesterday's
+	// end-of-day value (the water kernel reads WG[0] on the first sub-step)
+	{
+		N := cellP("GlobalVarsMain.N")
+		t := sweepTarget{name: "start-of-day water content", root: "GlobalVarsMain.WG", prefix: []int64{0}, lo: PZero(), hi: N.Sub(PInt(1)), filler: func(idx Poly) Poly { return cellP("GlobalVarsMain.WG", PInt(1), idx) }}
+		found := false
+		for _, L := range loopsOf(x) {
+			has := false
+			for _, e := range x.Events {
+				if innermost(e, L) && len(e.Loops) == 1 {
+					if _, ok := matchTarget(e, t); ok {
+						has = true
+					}
+				}
+			}
+			if !has || found {
+				continue
+			}
+			found = true
+			sweepDefines(p, r, x, L, t, "state-handover", true)
+			// taken on every day after the first: the only guard is 'day > start day'
+			var gs []string
+			okG := false
+			if L.Entry != nil {
+				for _, g := range flattenGuards(L.Entry.guards) {
+					if g.Loop {
+						continue
+					}
+					gs = append(gs, g.Key())
+					if g.Kind == "cmp" && g.P.MentionsRoot("GlobalVarsMain.BEGINN") && (g.Op == token.GTR || g.Op == token.LSS) {
+						okG = true
+					}
+				}
+			}
+			r.Ob("state-handover:every-day", p.Pos(L.Stmt.Pos()), okG && len(gs) == 1, fmt.Sprintf("the hand-over runs on every day after the first (guards: %v)", gs))
+		}
+		if !found {
+			r.Ob("state-handover:defined", "-", false, "no sweep hands yesterday's end-of-day water content over to the start of the day")
+		}
+	}
 	for _, it := range items {
 		ok, why, n := definedOnAllPaths(x, it.root, it.array)
 		r.Ob("redefined:"+shortRoot(it.root), "-", ok, fmt.Sprintf("%s: %d defining store(s)/sweep(s); defined on every path: %v %s", shortRoot(it.root), n, ok, why))
